@@ -1141,4 +1141,9 @@ pub mod verif_hooks {
             self.0.has(id)
         }
     }
+
+    /// Target pack size for a blob type given the config and the total size of its existing packs.
+    pub fn pack_size(config: &ConfigFile, blob_type: BlobType, current_size: u64) -> u32 {
+        PackSizer::from_config(config, blob_type, current_size).pack_size()
+    }
 }
